@@ -3,6 +3,7 @@ use verif_core::*;
 pub mod c15;
 pub mod c17;
 pub mod c18;
+pub mod c18_mac;
 
 pub fn table() -> Vec<Prop> {
     vec![
